@@ -153,7 +153,7 @@ func runProperty(repo, lib, prop, tier string) int {
 			continue
 		}
 		if res.SpecError == "" && res.OutOfReach == "" {
-			v.solveAll(res.x, res.Obligations, timeout, stats)
+			v.Solve(res, timeout, stats)
 		}
 		for _, u := range res.Uses {
 			queue = append(queue, u)
